@@ -15,7 +15,8 @@ plugin *i* is shown the original overlaid with the adjustments of plugins 0 … 
 container being updated (`C04_update_step`), and plugin *i* is shown exactly what the
 state-free specification walk (`Nri.UpdateWalk.walk`, the value the correspondence run's
 `specC04` evaluates) yields for the updated container over the plugins before it
-(`C04_update`; hypothesis: no single update names one item twice, the driver's guard).
+(`C04_update`; hypothesis: no ignore-failure update names one item twice, implied by the
+driver's guard).
 
 Not proved (partial): the last sentence of the property — that the view also equals the
 overlay of the *combined reply so far* on the original — is the reply/view simulation of C03;
@@ -156,14 +157,14 @@ theorem C04_update (id : Cid) (req : Resources) (rs : List (Plugin × Response))
 -- 40-d, the fourth plugin, is shown limit 3 / quota 4 / pids 5 and no cpu shares: the walk over
 -- the first three plugins
 example :
-    (∀ u ∈ flatUpdates chain4, (setsUpd u).Nodup) ∧
+    (∀ u ∈ flatUpdates chain4, u.ignoreFailure = true → (setsUpd u).Nodup) ∧
     ((viewsAlong Quirks.fixed (initUpdate (str "c0") { pids := some 5 }) (answeredAll chain4))[3]?.map fun s =>
       (decide (s.reqRes = (walk (specBase (.update (str "c0")) { pids := some 5 }) (chain4.take 3)).get
                  (specBase (.update (str "c0")) { pids := some 5 }) (str "c0")),
        (s.reqRes.memory.getD {}).limit, (s.reqRes.cpu.getD {}).shares, (s.reqRes.cpu.getD {}).quota, s.reqRes.pids))
     = some (true, some 3, none, some 4, some 5) := by decide
 
-/-- the same for chains in which no update at all names an item twice: every position -/
+/-- the same with the hypothesis stated once for the whole chain: every position -/
 theorem C04_update_request (id : Cid) (req : Resources) (rs : List (Plugin × Response))
     (hnd : NoDupItems (flatUpdates rs)) (i : Nat) (s : State)
     (h : (viewsAlong Quirks.fixed (initUpdate id req) (answeredAll rs))[i]? = some s) :
@@ -177,12 +178,39 @@ theorem C04_update_request (id : Cid) (req : Resources) (rs : List (Plugin × Re
 
 -- 30-c, the third plugin, is shown limit 3 and pids 5, neither the dropped limit 8 nor cpu shares
 example :
-    (∀ u ∈ flatUpdates chain4, (setsUpd u).Nodup) ∧
+    (∀ u ∈ flatUpdates chain4, u.ignoreFailure = true → (setsUpd u).Nodup) ∧
     ((viewsAlong Quirks.fixed (initUpdate (str "c0") { pids := some 5 }) (answeredAll chain4))[2]?.map fun s =>
       (decide (s.reqRes = (walk (specBase (.update (str "c0")) { pids := some 5 }) (chain4.take 2)).get
                  (specBase (.update (str "c0")) { pids := some 5 }) (str "c0")),
        (s.reqRes.memory.getD {}).limit, (s.reqRes.cpu.getD {}).shares, (s.reqRes.cpu.getD {}).quota, s.reqRes.pids))
     = some (true, some 3, none, none, some 5) := by decide
+
+/-- **Every position, chains with unsubscribed or dropped plugins.** Position `i` of a chain in
+    which some plugins do not answer: the walk runs over the plugins before `i` that did. -/
+theorem C04_update_dropped (id : Cid) (req : Resources) (rs : List (Plugin × Option Response)) (i : Nat)
+    (s : State) (hnd : NoDupItems (flatUpdates (answered (rs.take i))))
+    (h : (viewsAlong Quirks.fixed (initUpdate id req) rs)[i]? = some s) :
+    s.reqRes = (walk (specBase (.update id) req) (answered (rs.take i))).get (specBase (.update id) req) id := by
+  have hrun := viewsAlong_run _ _ _ i s h
+  rw [run_answered] at hrun
+  obtain ⟨rel, _⟩ := run_rel (baseOf (initUpdate id req)) (answered (rs.take i)) (initUpdate id req) s {}
+    (rel_fresh _ rfl rfl) (entOK_fresh _ rfl rfl) hnd hrun
+  rw [← walk_eq, baseOf_initUpdate] at rel
+  rw [rel.vals id]
+  have hk : s.kind = .update id := run_kind _ _ s _ hrun
+  unfold updBase
+  simp [hk, isOwn]
+
+-- chain4 with an unsubscribed plugin after the first: position 4 is 40-d again
+example :
+    let rs : List (Plugin × Option Response) :=
+      (answeredAll (chain4.take 1)) ++ (str "15-x", none) :: answeredAll (chain4.drop 1)
+    (answered (rs.take 4)).map (fun x => (x.1, x.2.updates)) = (chain4.take 3).map (fun x => (x.1, x.2.updates)) ∧
+    ((viewsAlong Quirks.fixed (initUpdate (str "c0") { pids := some 5 }) rs)[4]?.map fun s =>
+      (decide (s.reqRes = (walk (specBase (.update (str "c0")) { pids := some 5 }) (answered (rs.take 4))).get
+                 (specBase (.update (str "c0")) { pids := some 5 }) (str "c0")),
+       (s.reqRes.memory.getD {}).limit, (s.reqRes.cpu.getD {}).shares, (s.reqRes.cpu.getD {}).quota, s.reqRes.pids))
+    = some (true, some 3, none, some 4, some 5) := by decide
 
 /-! ### the hypotheses are satisfiable -/
 
